@@ -45,12 +45,20 @@ def gen_cases(tier, seed):
         yield "pem_private_value", {"k": hex(k)}
     for i in range(120 if q else 2500):
         yield "pem_public", {"k": hex(rng.randrange(1, N)), "comp": i % 2 == 0}
+    for i in range(24 if q else 240):
+        yield "pem_public", {"k": hex(rng.randrange(1, N)), "comp": i % 2 == 0, "edge": ["trail00", "trail00", "lead00", "lead00", "trailff", "trailff"][i % 6]}
+    for i in range(2 if q else 8):
+        yield "pem_public", {"k": hex(rng.randrange(1, N)), "comp": i % 2 == 0, "edge": "trail0000"}
+    # private keys with trailing zero bytes (leading ones are the lz classes above)
+    for tz in (1, 2, 3, 8):
+        for rep in range(2 if q else 10):
+            yield "pem_private_value", {"k": hex(((rng.getrandbits(8 * (32 - tz) - 8 * (rep % 2)) | 1) << (8 * tz)) % N or 1)}
 
 
 def required(tier):
     return {"sec1.rt": 150, "sec1.cand": 3000, "sec1.cand.accept": 100, "sec1.class.len65_prefix02": 50, "sec1.class.offcurve": 50,
             "sec1.class.x_ge_p": 50, "sec1.class.hybrid": 50, "sec1.class.coord_plus_p": 100, "sec1.class.offcurve_pseudo_root": 50, "wif.rt": 140, "wif.corrupt": 500, "wif.unknown_version": 100,
-            "wif.badkey_refused": 10, "privkey.badkey_refused.pem_encode_key": 8, "privkey.badkey_refused.compute_point": 8, "pem.priv": 32, "pem.priv.ossl_reads": 32, "pem.priv.lib_reads_ossl": 32, "pem.pub": 100,
+            "wif.badkey_refused": 10, "privkey.badkey_refused.pem_encode_key": 8, "privkey.badkey_refused.compute_point": 8, "pem.priv": 32, "pem.priv.ossl_reads": 32, "pem.priv.lib_reads_ossl": 32, "pem.pub": 100, "pem.pub.edge.trail00": 6, "pem.pub.edge.lead00": 6,
             "pem.pub.ossl_reads": 100, "pem.pub.lib_reads_ossl": 100, "cli.pubkey": 150, "cli.pubkey_bad": 300, "cli.wif": 20}
 
 
@@ -335,6 +343,22 @@ def run_case(kind, params, ctx):
         comp = params["comp"]
         pt = secp.pub(k)
         enc = secp.sec1_encode(pt, comp)
+        edge = params.get("edge")
+        if edge:
+            # walk k, k+1, ... until the ENCODING has the byte structure asked for (first / last coordinate byte 00 or ff):
+            # what a decoder that strips, pads or splits on such bytes gets wrong; ~256 cheap point additions
+            G = secp.pub(1)
+            want = {"trail00": lambda e: e[-1] == 0, "lead00": lambda e: e[1] == 0, "trailff": lambda e: e[-1] == 0xFF, "trail0000": lambda e: e[-1] == 0 and e[-2] == 0}[edge]
+            for _ in range(200000):
+                if want(enc):
+                    break
+                k += 1
+                pt = secp.SECP.add(pt, G)
+                enc = secp.sec1_encode(pt, comp)
+            else:
+                ctx.count("pem.pub.edge_grind_failed")
+                return
+            ctx.count(f"pem.pub.edge.{edge}")
         cls = "compressed" if comp else "uncompressed"
         ctx.count("pem.pub")
         ctx.nontrivial()
